@@ -124,7 +124,7 @@ def gen_cases(ctx):
     rng = ctx.rng
     cases = list(CORPUS)
     wmax = 12 if ctx.thorough else 8
-    nrand = 400 if ctx.thorough else 60
+    nrand = 150 if ctx.thorough else 30
     # --- exhaustive small widths ------------------------------------------------------------
     for w in range(1, wmax + 1):
         extra_counts = [-1, -w, -w - 2, w, w + 1, 2 * w + 3, rng.randint(-10 ** 6, 10 ** 6)]
@@ -189,9 +189,11 @@ def gen_cases(ctx):
         cases.append(("encode_imm32", (v,)))
     # --- align, bytes, bit lists --------------------------------------------------------------
     for m in list(range(1, 18)) + [32, 64, 100, 4096]:
-        for v in list(range(-2 * m - 1, 2 * m + 2)) + [rng.randint(-(1 << 40), 1 << 40) for _ in range(4)]:
-            if m <= 17 or abs(v) < 10 ** 13:
-                cases.append(("align", (v, m)))
+        vs = list(range(-2 * m - 1, 2 * m + 2)) if m <= 17 else \
+            [-2 * m - 1, -2 * m, -m - 1, -m, -m + 1, -1, 0, 1, m - 1, m, m + 1, 2 * m - 1, 2 * m, 2 * m + 1] + \
+            [rng.randint(-3 * m, 3 * m) for _ in range(12)]
+        for v in vs + [rng.randint(-(1 << 40), 1 << 40) for _ in range(4)]:
+            cases.append(("align", (v, m)))
     for k in range(0, 10):
         for v in [0, 1, -1, 255, 256, -256, (1 << (8 * k)) - 1, 1 << (8 * k), -(1 << (8 * k))] + \
                  [rng.randint(-(1 << (8 * k + 3)), 1 << (8 * k + 3)) for _ in range(20)]:
